@@ -1,7 +1,7 @@
 import PhyModel.Proofs.StoreWF_dictRTA
 /-! Dictionary round trip, part B (C07/C15): `Tree.from_dict(tree.to_dict())` rebuilds the forest with
 the same shape, graph indices and names, and each clone's data points up to order (`SF.Sim`); the
-invariant `Inv` (and `Dense`) is preserved and the four maps are unchanged. -/
+invariant `Inv0` (and `Dense`) is preserved and the four maps are unchanged. -/
 namespace PhyModel.Store
 open PhyModel PhyModel.Store PhyModel.Store.Store SF AL
 
@@ -75,7 +75,7 @@ theorem buildSF_of_ok (dt : Data) (d : TDict) {f : SF} (hok : ∀ x ∈ f.subs, 
         Option.bind_some, bne_self_eq_false, Bool.false_eq_true, if_false, Option.pure_def]
 
 /-- the forest rebuilt by `from_dict (to_dict s)`, before the caches are recomputed -/
-theorem buildSF_toDict (dt : Data) {s : Store} (hs : Inv s) :
+theorem buildSF_toDict (dt : Data) {s : Store} (hs : Inv0 s) :
     ∃ f', buildSF dt s.toDict ((edgesOf 0 s.forest).length + 1) (kidsIdx (edgesOf 0 s.forest) 0) = some f' ∧
       SF.Sim f' s.forest := by
   obtain ⟨hw, hfull⟩ := hs
@@ -92,7 +92,7 @@ theorem buildSF_toDict (dt : Data) {s : Store} (hs : Inv s) :
     rw [dataOf_eq, hdo] at this; exact this.symm
 
 /-- `from_dict (to_dict s)`: same forest up to caches and the order inside each clone's data, same maps -/
-theorem fromDict_toDict_spec {dt : Data} {s s' : Store} (h : Store.fromDict dt s.toDict = some s') (hs : Inv s) :
+theorem fromDict_toDict_spec {dt : Data} {s s' : Store} (h : Store.fromDict dt s.toDict = some s') (hs : Inv0 s) :
     SF.Sim s'.forest s.forest ∧ s'.data = s.data ∧ s'.nodeIdx = s.nodeIdx ∧
       s'.nodeIdxRev = s.nodeIdxRev ∧ s'.last = s.last := by
   obtain ⟨f', hb, hsim⟩ := buildSF_toDict dt hs
@@ -115,7 +115,7 @@ theorem fromDict_toDict_spec {dt : Data} {s s' : Store} (h : Store.fromDict dt s
       exact ⟨SF.Sim.updAll dt hsim, rfl, rfl, rfl, rfl⟩
 
 /-- on a well-formed store the round trip does not fail -/
-theorem fromDict_toDict_isSome (dt : Data) {s : Store} (hs : Inv s) : ∃ s', Store.fromDict dt s.toDict = some s' := by
+theorem fromDict_toDict_isSome (dt : Data) {s : Store} (hs : Inv0 s) : ∃ s', Store.fromDict dt s.toDict = some s' := by
   obtain ⟨f', hb, _⟩ := buildSF_toDict dt hs
   have hb' : buildSF dt s.toDict (s.toDict.edges.length + 1)
       ((s.toDict.edges.filter (·.1 = 0)).map (·.2)) = some f' := hb
@@ -140,8 +140,8 @@ theorem fromDict_toDict_isSome (dt : Data) {s : Store} (hs : Inv s) : ∃ s', St
         exact Or.inr ⟨x, hx, hxi⟩
     · rw [hb']; exact ⟨_, rfl⟩
 
-theorem fromDict_toDict_inv {dt : Data} {s s' : Store} (h : Store.fromDict dt s.toDict = some s') (hs : Inv s) :
-    Inv s' ∧ (Dense s → Dense s') ∧ s'.data = s.data ∧ s'.nodeIdx = s.nodeIdx ∧ s'.nodeIdxRev = s.nodeIdxRev ∧
+theorem fromDict_toDict_inv {dt : Data} {s s' : Store} (h : Store.fromDict dt s.toDict = some s') (hs : Inv0 s) :
+    Inv0 s' ∧ (Dense s → Dense s') ∧ s'.data = s.data ∧ s'.nodeIdx = s.nodeIdx ∧ s'.nodeIdxRev = s.nodeIdxRev ∧
       s'.last = s.last := by
   obtain ⟨hsim, h1, h2, h3, h4⟩ := fromDict_toDict_spec h hs
   obtain ⟨hw, hf, hd⟩ := inv_of_sameCore hsim.sameCore h2 h3 h1
@@ -149,7 +149,7 @@ theorem fromDict_toDict_inv {dt : Data} {s s' : Store} (h : Store.fromDict dt s.
 
 /-- the round trip restores the payload list up to the order of each clone's data points and the caches -/
 theorem fromDict_toDict_sameCore {dt : Data} {s s' : Store} (h : Store.fromDict dt s.toDict = some s')
-    (hs : Inv s) : SameCore s'.forest.recs s.forest.recs :=
+    (hs : Inv0 s) : SameCore s'.forest.recs s.forest.recs :=
   (fromDict_toDict_spec h hs).1.sameCore
 
 /-- data forests of the same shape whose data lists agree up to order, node by node
@@ -166,7 +166,7 @@ theorem SF.Sim.toDF {f' f : SF} (h : SF.Sim f' f) : DFPerm f'.toDF f.toDF := by
 
 /-- the round trip restores the shape; each clone's data list up to order -/
 theorem fromDict_toDict_toDF {dt : Data} {s s' : Store} (h : Store.fromDict dt s.toDict = some s')
-    (hs : Inv s) : DFPerm s'.forest.toDF s.forest.toDF :=
+    (hs : Inv0 s) : DFPerm s'.forest.toDF s.forest.toDF :=
   (fromDict_toDict_spec h hs).1.toDF
 
 end PhyModel.Store
